@@ -13,11 +13,11 @@ import json, os, re
 import vlib
 
 COQ_TARGET = "props/C11.v"
-THEOREMS = ["C11_exec_vs_sem", "C11_machine_is_fold", "C11_fuel_mono", "C11_if_one_branch", "C11_if_one_branch_tokens",
+THEOREMS = ["C11_exec_vs_sem", "C11_run_script", "C11_machine_is_fold", "C11_fuel_mono", "C11_if_one_branch", "C11_if_one_branch_tokens",
             "C11_loop_unroll", "C11_loop_unroll_text", "C11_for_unroll", "C11_break_exits_loop", "C11_break_innermost",
             "C11_continue", "C11_continue_for", "C11_limit", "C11_limit_for", "C11_call_named", "C11_call_named_tokens",
-            "C11_statement_call", "C11_defaults", "C11_return_immediate", "C11_return_from_loops", "C11_return_keeps_result",
-            "C11_scope", "C11_scope_statement_call", "C11_local_writes_only", "C11_signals_stop_at_call"]
+            "C11_statement_call", "C11_statement_call_tokens", "C11_signals_stop_at_call", "C11_defaults", "C11_return_immediate",
+            "C11_return_from_loops", "C11_return_keeps_result", "C11_scope", "C11_scope_statement_call", "C11_local_writes_only"]
 DRIVERS = ["script", "core"]
 RULE = ("programs of 2..7 statements over: leaf commands (notes c d e f g a b with lengths, rests, o/l/v/q state commands), PRINT of 1..3 "
         "integer expressions, INT declarations with and without initialiser, assignments, X++ / X--, IF with and without ELSE (conditions = "
@@ -28,12 +28,13 @@ RULE = ("programs of 2..7 statements over: leaf commands (notes c d e f g a b wi
         "inside nested loops, RETURN without a value, Result = value, locals and parameters that shadow globals, assignment to a global name "
         "inside a function; fixed families: recursion (factorial, Fibonacci, a countdown that plays notes) of depth <= 8, loops that never end "
         "(WHILE(1) and FOR(;1;) with X++ / CONTINUE / guarded RETURN bodies) cut at 10000; layout: blanks / line breaks / ';' between "
-        "statements, line breaks inside blocks, ELSE on the same or the next line.  non-trivial = distinct source whose expansion has >= 2 "
+        "statements, line breaks inside blocks, ELSE on the same or the next line; plus a damaged stream for the correspondence only "
+        "(loop-free programs with one character deleted / doubled / inserted or a span removed).  non-trivial = distinct source whose expansion has >= 2 "
         "leaves or prints and that contains a loop or a call")
 TRUSTED = ["log line formats `[PRINT](line) text` and `[ERROR](line) Loop too many times WHILE(>10000)` of runner.rs",
            "the integer semantics re-implemented in this plugin (truncating / and %, division by zero = 0, comparisons = 1 / 0)",
            "Flags::new() max_loop = 10000 (anchored: the plugin reads src/song.rs and stops the run if the constant moved)"]
-ASSUMES = ["every value stays below 2^40 in magnitude (64-bit overflow is not modelled)",
+ASSUMES = ["every value stays below 2^31 - 1 in magnitude (the expansion writes values as numerals, which get_int saturates at i32::MAX; 64-bit overflow is not modelled)",
            "variables are declared or assigned before they are read; names do not collide with commands (Xa, Ia, Fa, Pa, ...)",
            "function bodies read only their own parameters / locals and globals that no caller shadows (the code looks names up through "
            "the callers' scopes - dynamic scoping; the property does not say which scoping applies, so the generator stays where both agree)",
@@ -42,7 +43,7 @@ ASSUMES = ["every value stays below 2^40 in magnitude (64-bit overflow is not mo
            "at most about 300 executed leaves per case; loops that hit the limit have bodies without notes"]
 
 LIMIT = 10000
-BIG = 2 ** 40
+BIG = 2 ** 31 - 1      # numerals in the source saturate at i32::MAX (get_int); the expansion writes values as numerals
 GLOBALS = ["Xa", "Xb", "Xc", "Yn", "Ym"]
 COUNTERS = ["Ka", "Kb", "Kc", "Kd", "Ke", "Kf"]
 FORVARS = ["Ia", "Ib", "Ic", "Id", "Ie", "If2"]
@@ -92,6 +93,8 @@ class Interp:
         raise Skip("read of an unset variable " + name)
 
     def assign(self, name, v, fr):
+        if v is not None and abs(v) >= BIG:
+            raise Skip("big value")
         g, l = fr
         (l if l is not None else g)[name] = v
 
@@ -699,6 +702,50 @@ def run(ctx):
     rest = len(cases) % 2000
     if rest:
         check_cases(ctx, cases[-rest:], "generated")
+    run_mutations(ctx, 500 if quick else 6000)
+
+
+def run_mutations(ctx, n):
+    """correspondence off the grammar: generated programs WITHOUT loops (a damaged loop may run 10000 x 10000 passes) with one
+    character deleted / doubled / inserted or a span removed; model (when it does not answer Unsupported) and implementation
+    must agree on bytes and log"""
+    rng = ctx.rng
+    srcs = []
+    tries = 0
+    while len(srcs) < n and tries < 50 * n:
+        tries += 1
+        prog = gen_program(rng, rng.choice([1, 2]))
+        try:
+            meaning(prog)
+        except (Skip, RecursionError):
+            continue
+        s = render(prog, rng)
+        if re.search(r"WHILE|While|FOR|For", s):
+            continue
+        k, i = rng.random(), rng.randrange(len(s))
+        if k < 0.4:
+            s = s[:i] + s[i + 1:]
+        elif k < 0.6:
+            s = s[:i] + s[i] + s[i:]
+        elif k < 0.8:
+            s = s[:i] + rng.choice("(){};=+-,c \n") + s[i:]
+        else:
+            j = rng.randrange(len(s))
+            i, j = min(i, j), max(i, j)
+            s = s[:i] + s[j:]
+        srcs.append(s)
+    impl = ctx.impl(["compile_lex\t%s" % vlib.enc_text(s) for s in srcs], stall=40)
+    model = ctx.model(["compile_script\t%s" % vlib.enc_text(s) for s in srcs], stall=120)
+    for s, a, b in zip(srcs, impl, model):
+        ctx.count("mutated", None)
+        if a in ("PANIC", "HANG", "ABORT"):
+            # unbounded recursion (a damaged function that calls itself) exhausts the native stack: C07's subject, not a
+            # statement of C11; counted, not judged here
+            ctx.dist["mutated_" + a] = ctx.dist.get("mutated_" + a, 0) + 1
+        elif b.startswith("UNSUPPORTED"):
+            ctx.unsupported += 1
+        elif a != b:
+            ctx.disagree("compile_script(mutated)", {"source": s}, a[:1500], b[:1500])
 
 
 def still_fails(ctx, src):
